@@ -11,6 +11,9 @@ import core, ombuild, gen, models
 
 PROP = "C12"
 GRID = 64
+ASYM = "c12 20 1 1 0 13 9 2 -7 1 0 9 1 0 8 9 -2 -6 5 -1 9"      # theorem tritri_symmetry_refuted
+ASYM_SWAPPED = "c12 20 1 1 0 8 9 -2 -6 5 -1 9 1 0 13 9 2 -7 1 0 9"
+SIG_ASYM = "Triangle::intersects asymmetric: T1=(1,0,13)(9,2,-7)(1,0,9) T2=(1,0,8)(9,-2,-6)(5,-1,9)"
 CROSSING = "c12 10 1 6 0 0 0 4 0 0 0 4 0 1 1 -1 1 1 1 2 2 1 2 0 1 2 3 4 5"   # two crossing triangles (DESIGN 4 row 15)
 
 def rpt(rng, R): return [rng.randint(-R, R) for _ in range(3)]
@@ -73,6 +76,59 @@ def gen_soup(rng, two=False):
         m2 = tris(rng.randint(1, 4), pool2); w += [len(m2)] + [a for t in m2 for a in t]
     return "c12 " + " ".join(map(str, w))
 
+
+# ------------------------------------------------------------------ near-coplanar pairs on generic doubles (float wire, h_c12f)
+NEARCOPL_WITNESS = ("c12f 21 | -0x1.8541b72461fd4p+3 -0x1.852ae6803aeacp+6 0x1.9dc7f57830ce8p+5 0x1.653f49076824ap+4 -0x1.34293a5672996p+6 0x1.f4b420b8d4a24p+5 "
+                    "-0x1.97839719fc7ecp+3 -0x1.a7faf809c3945p+6 0x1.ea725111090f2p+5 0x1.67b57a75665afp+7 0x1.d8c957e35ebfcp+4 0x1.7f0a5ffe30fdap+6 "
+                    "0x1.002e94db3ef2bp+7 0x1.372a55873fce0p+1 0x1.2e89c34def7c4p+6 0x1.33f4d977522b8p+7 0x1.bc714e975e370p+2 0x1.81063f3ea562ap+6")
+def gen_nearcoplanar(rng):
+    """two triangles of one plane (apart / close / overlapping by construction), rigidly moved by a rational rotation and a
+    translation: exactly coplanar before the motion, coplanar up to rounding after it"""
+    L = rng.choice([1.0, 1.0, 100.0, 0.01]); kind = rng.choice(["apart", "apart", "close", "overlap"])
+    t1 = [(rng.uniform(0, 1) * L, rng.uniform(0, 1) * L, 0.0) for _ in range(3)]
+    if kind == "apart": t2 = [(rng.uniform(2, 3) * L, rng.uniform(0, 1) * L, 0.0) for _ in range(3)]
+    elif kind == "close": t2 = [(rng.uniform(1.05, 2) * L, rng.uniform(0, 1) * L, 0.0) for _ in range(3)]
+    else:
+        g = [sum(v[k] for v in t1) / 3 for k in range(3)]; t2 = [tuple(g)] + [(rng.uniform(0, 3) * L, rng.uniform(0, 1) * L, 0.0) for _ in range(2)]
+    R = models.rational_quaternion(rng, den=7); tr = [rng.uniform(-1, 1) * L for _ in range(3)]
+    pts = [tuple(c + tt for c, tt in zip(models.apply_R(R, v), tr)) for v in t1 + t2]
+    return kind, core.fcase("c12f", [21], [c for p in pts for c in p])
+
+
+# ------------------------------------------------------------------ Interface::contains (float wire, op 30)
+def gen_contains(rng):
+    """(kind, case line, expected or None): closed surfaces (one or two meshes, either orientation), open caps, points
+    inside / outside / close to the surface / at a vertex / in the plane of a triangle"""
+    kind = rng.choice(["sphere", "sphere", "sphere-flipped", "ellipsoid", "two-mesh", "open-cap", "octa"])
+    lvl = rng.choice([0, 0, 1]); c = tuple(rng.uniform(-1, 1) for _ in range(3)); r = rng.choice([1.0, 0.37, 85.0])
+    if kind == "octa": v, t = models.octasphere(1)
+    else: v, t = models.icosphere(lvl)
+    ax = (1, 1, 1) if kind != "ellipsoid" else (rng.uniform(0.5, 2), rng.uniform(0.5, 2), 1.0)
+    V = models.transform(v, r, c, ax)
+    if kind == "two-mesh":
+        up = [x for x in t if sum(v[a][2] for a in x) > 0]; dn = [x for x in t if x not in up]; meshes = [(1, up), (1, dn)]
+    elif kind == "open-cap":
+        meshes = [(1, [x for x in t if sum(v[a][2] for a in x) > 0])]
+    elif kind == "sphere-flipped":
+        meshes = [(-1, list(t))]
+    else:
+        meshes = [(1, list(t))]
+    w = rng.random(); d = models.random_unit(rng); expected = None
+    inr = 0.75 if lvl else 0.6
+    if w < 0.35: rho = rng.uniform(0.0, inr); expected = 1
+    elif w < 0.7: rho = rng.uniform(1.3, 3.0); expected = 0
+    elif w < 0.85: rho = rng.uniform(0.8, 1.2)
+    else: rho = None
+    if rho is None:
+        k = rng.randrange(len(V)); p = V[k] if rng.random() < 0.5 else tuple((V[t[0][0]][i] + V[t[0][1]][i]) / 2 for i in range(3))
+    else:
+        p = tuple(c[i] + r * ax[i] * rho * d[i] for i in range(3))
+    if kind == "ellipsoid" and expected == 1 and rho > 0.45: expected = None
+    if kind == "open-cap": expected = None
+    ints = [30, len(V), len(meshes)]
+    for sg, ts in meshes: ints += [sg, len(ts)] + [a for x in ts for a in x]
+    return kind, core.fcase("c12f", ints, list(p) + [x for q in V for x in q]), expected
+
 # ------------------------------------------------------------------ geometry level
 def snap(v): return tuple(int(round(c * GRID)) for c in v)
 
@@ -108,6 +164,9 @@ def damaged_models(rng, quick):
     out.append(("two-shells-inner-translated", m, None, None, dict(self=0)))
     m = models.nested([0.5, 1.0], [1.0, 0.33], level=lvl)
     out.append(("two-shells-clean+source-mesh", m, sphere(0.25, (0.1, 0.0, 0.0)), inner_dips(3, 0.3), dict(self=1, mesh=1, inner=1)))
+    # a flat cut surface (exactly coplanar, non adjacent triangles) after a generic rotation: valid model, must pass
+    R = models.rational_quaternion(rng, den=7)
+    out.append(("rotated-flat-cut", models.move_model(models.split_hemispheres(1.0, [1.2], (1.0, 0.33), [0.5], level=1), R=R, t=(0.1, -0.2, 0.05)), None, None, dict(self=1, nosnap=1)))
     # non nested models: mesh/mesh intersections are not examined by selfCheck; dipoles are refused
     out.append(("siblings-clean", models.inclusions(1.0, [((0.45, 0, 0), 0.3, 1.0), ((-0.45, 0.1, 0), 0.3, 0.33)], 1.0, level=lvl), None, inner_dips(2, 0.2), dict(self=1, inner=0)))
     return out
@@ -219,12 +278,76 @@ def main(replay=None):
                 stats["mism"] += 1
                 ck.violation("Mesh::intersection: model and implementation differ", "Mesh::intersection returns %s, model %d on `%s`" % (iz[1:], mz[1], c),
                              dict(kind="correspondence", cases=[c], kinds=[k], model=[m], impl=[i]))
+    # ---- refutation replay: asymmetry on a non-generic pair (known finding)
+    am = core.run_model([ASYM, ASYM_SWAPPED]); rca, ai, _e = core.run_harness(hb, [ASYM, ASYM_SWAPPED], ck.workdir, tag="asym")
+    if not replay:
+        if [x.split()[:2] for x in am] != [x.split()[:2] for x in ai]:
+            ck.violation("Triangle::intersects: decision tree model and implementation differ", "on the asymmetry witness: model %s implementation %s" % (am, ai), dict(kind="correspondence", cases=[ASYM, ASYM_SWAPPED]))
+        elif ai[0].split()[1] != ai[1].split()[1]:
+            ck.violation(SIG_ASYM, "Triangle::intersects answers %s for (T1,T2) and %s for (T2,T1) on two disjoint triangles of non-zero area in non-generic position" % (ai[0].split()[1], ai[1].split()[1]),
+                         dict(kind="refutation-replay", cases=[ASYM, ASYM_SWAPPED]))
+    # ---- nearly coplanar pairs (generic doubles): ground truth by construction, both argument orders
+    nc = dict(cases=0, apart=0, close=0, overlap=0, wrong=0)
+    hbf = None
+    try:
+        hbf = os.path.join(bdir, "h_c12f")
+        srcf = os.path.join(core.VERIF, "harness", "h_c12f.cpp")
+        if not os.path.exists(hbf) or os.path.getmtime(hbf) < os.path.getmtime(srcf): ombuild.build_harness(bdir, srcf, hbf)
+    except RuntimeError as e:
+        ck.violation("harness-build", "float harness does not compile: %s" % e, dict(kind="build"), found_input=False); hbf = None
+    if hbf and not replay:
+        fc = [("witness-apart", NEARCOPL_WITNESS)] + [gen_nearcoplanar(ck.rng) for _ in range(6000 if quick else 60000)]
+        rcf, fo, _e = core.run_harness(hbf, [c for _, c in fc], ck.workdir, tag="nearcopl")
+        for (kind, c), o in zip(fc, fo):
+            z, _f = core.fparse(o); nc["cases"] += 1
+            k = "apart" if kind.endswith("apart") else kind
+            nc[k] += 1
+            want = 1 if k == "overlap" else 0
+            if z is None or z[0] != 0 or z[1] != want or z[2] != want:
+                nc["wrong"] += 1
+                ck.violation("Triangle::intersects: nearly coplanar pair" + (" (witness)" if kind == "witness-apart" else ""),
+                             "Triangle::intersects answers %s (T1 vs T2, T2 vs T1) on two triangles of one plane that are %s by construction, after a rigid motion: `%s`" % (z[1:3] if z else o, "disjoint (well separated)" if want == 0 else "overlapping", c),
+                             dict(kind="property", fcases=[c]))
+    if replay and hbf and rp.get("fcases"):
+        rcf, fo, _e = core.run_harness(hbf, rp["fcases"], ck.workdir, tag="nearcopl")
+        for c, o in zip(rp["fcases"], fo):
+            z, _f = core.fparse(o)
+            if z is None or z[1] != z[2]:
+                ck.violation("Triangle::intersects: nearly coplanar pair", "replayed pair `%s` -> %s" % (c, o), dict(kind="property", fcases=[c]))
+    # ---- Interface::contains: float instance of coq/Geom/Contains.v against the implementation
+    cs = dict(cases=0, inside=0, bitwise_equal_angle=0, max_abs_angle_diff=0.0, expected_checked=0, mism=0)
+    if hbf and not replay:
+        cc = [gen_contains(ck.rng) for _ in range(1500 if quick else 15000)]
+        cm = core.run_model([c for _, c, _ in cc])
+        rcf, co, _e = core.run_harness(hbf, [c for _, c, _ in cc], ck.workdir, tag="contains")
+        for (kind, c, exp), m, o in zip(cc, cm, co):
+            mz, mf = core.fparse(m); z, f = core.fparse(o); cs["cases"] += 1
+            dist["contains:" + kind] = dist.get("contains:" + kind, 0) + 1
+            if z is None or mz is None or z[0] != 0 or mz[0] != 0 or z[1] != mz[1] or not core.close(mf[0], f[0], rel=1e-12, abs_=1e-12):
+                cs["mism"] += 1
+                ck.violation("Interface::contains: model and implementation differ", "Interface::contains/solid_angle gives %s where the float instance of the model (Geom/Contains.v over Kernels.solid_angle) gives %s on `%s`" % (o, m, c[:300]),
+                             dict(kind="correspondence", fcases=[c], model=[m], impl=[o])); continue
+            cs["inside"] += z[1]; cs["bitwise_equal_angle"] += (mf[0] == f[0]); cs["max_abs_angle_diff"] = max(cs["max_abs_angle_diff"], abs(mf[0] - f[0]))
+            if exp is not None:
+                cs["expected_checked"] += 1
+                want = exp
+                if z[1] != want:
+                    ck.violation("Interface::contains: wrong answer on a closed surface", "Interface::contains answers %d for a point that is %s the closed surface by construction (%s): `%s`" % (z[1], "inside" if exp else "outside", kind, c[:300]),
+                                 dict(kind="property", fcases=[c]))
     # ---- geometry level
     gstats = []
     if not replay or rp.get("geom"):
         todo = damaged_models(ck.rng, quick)
         if replay: todo = [t for t in todo if t[0] in rp.get("geom", [])]
         for gid, (name, m, extra, dips, expect) in enumerate(todo):
+            if expect.get("nosnap"):
+                models.write_model(m, os.path.join(ck.workdir, "g%d" % gid), fmt="tri")
+                rc, out, err = core.run_harness(hb, ["c12 13 %d" % gid], ck.workdir, tag="geom")
+                z = [int(x) for x in out[0].split()] if out and not out[0].startswith("CRASH") else [-9]
+                gstats.append(dict(name=name, harness=z[:3]))
+                if z[0] != 0 or z[2] != expect["self"]:
+                    ck.violation("geometry checks: " + name, "generated model `%s` (valid by construction): selfCheck/harness gives %s" % (name, z[:3]), dict(kind="geometry", geom=[name]))
+                continue
             info = write_geom_case(ck.rng, gid, ck.workdir, m, extra, dips)
             rc, out, err = core.run_harness(hb, ["c12 13 %d" % gid], ck.workdir, tag="geom")
             z = [int(x) for x in out[0].split()] if out and not out[0].startswith("CRASH") else [-9]
@@ -251,7 +374,7 @@ def main(replay=None):
                   samples=cases[len(cases) // 2:len(cases) // 2 + 2], op_distribution=dist, triangle_pairs=stats["pairs"],
                   pairs_intersecting=stats["isect_true"], oracle_checked=stats["oracle_checked"], oracle_no_clearance=stats["oracle_noclear"],
                   soups_self_intersecting=stats["self_true"], soup_pairs_intersecting=stats["pair_true"],
-                  correspondence_mismatches=stats["mism"], geometry_models=gstats, traces_validated_against_impl=len(cases) + len(gstats))
+                  correspondence_mismatches=stats["mism"], geometry_models=gstats, near_coplanar_pairs=nc, contains_cases=cs, traces_validated_against_impl=len(cases) + len(gstats))
     ck.cov["trusted_base"] += ["hand-written Gallina models coq/Geom/{TriTri,Checks}.v tied by exact differential runs (harness/h_c12.cpp vs extracted extract/omm)",
                                "extraction: ExtrOcamlBasic only", "Interface::contains (solid angle) is an abstract predicate of the model; its values are taken from the implementation"]
     ck.assumptions += ["triangle-triangle predicate: symmetry and agreement with exact geometry are validated against the oracle on pairs in generic position, not proved",
